@@ -27,9 +27,10 @@ ASSUMPTIONS = ['str.isspace / re \\s agree with the 29-code-point table of the m
                'str.find, re.search meet their documented behaviour (the model has its own definitions of the three regexes used)',
                'the model tracks /repo WITH fixes/C18-*.diff applied',
                'custom callables for repeated_key_aggregate_action and dict_type other than dict are not modelled']
-PARTIAL = ['C18_list_spans_partial: proved that every returned list is flush(items, pe) with pe the start of a separator '
-           'match inside a top-level chars node or the end of the list (pos = first node / pe when empty); NOT proved: '
-           'that the items tile [pos, pos_end) for a C01-well-formed input (checked by the oracle on the real values only)']
+PARTIAL = ['C18_part_adjacency_partial: proved that every returned list ends (pos_end) at the start of a separator match '
+           'inside a top-level chars node, or at the end of the list; NOT proved positionally: pos of part k+1 = pos_end of '
+           'part k + length of that separator (the textual form is C18_matcher; the positional form is checked by the '
+           'oracle on the real values only)']
 REFUTED = ['C18_drop_empty_maxsplit_refuted: with max_split given, keep_empty=False is NOT a filter of the keep_empty=True '
            'result (max_split counts kept parts, like str.split(None, n)); the law is proved for max_split=None',
            'C18_split_at_node_exact_count_refuted: split_at_node(max_split=n>=2) performs only n-1 splits (off-by-one in the '
